@@ -553,8 +553,8 @@ std::string
 gen_c12()
 {
 	std::ostringstream t;
-	int mode = *pbt::welem<int>({{4, 0}, {1, 1}, {1, 2}});
-	t << "cfg " << *pbt::range<int>(1, 1000000) << " " << mode << " 20 " << *pbt::range<int>(1, 3) << " 600 0\n";
+	int mode = *pbt::welem<int>({{4, 0}, {1, 1}, {1, 2}, {1, 3}});
+	t << "cfg " << *pbt::range<int>(1, 1000000) << " " << mode << " " << (mode == 3 ? 20 : 20) << " " << *pbt::range<int>(1, 3) << " " << (mode == 3 ? *gen::element(60, 150, 400) : 600) << " 0\n";
 	if (*pbt::welem<int>({{2, 0}, {1, 1}}))
 		t << "dialworld " << *gen::element(10, 20, 60) << "\n";
 	t << "rtick " << *gen::element(5, 10, 50, 200) << "\n";
